@@ -4,6 +4,8 @@
 //	cfg rate <p:a:b[,p:a:b…]> cap=<n> [solo=1]      TokenLimiter (solo=1: plus one private limiter per source)
 //	  at <ns> req <src> <amount> [rates=<…>] [evict=<src>]   -> 200 | 429 <delay_ns> | 500   [solo=<…>]
 //	  retry [extra=<ns>]                                      -> <resp> t=<ns> | noretry
+//	  at <ns> preq <src> <amount> <n> <goroutines> [rates=<…>] -> 200=<a> 429=<b> 500=<c>
+//	      n requests of one source issued from g goroutines at one frozen instant (order-free counts; not with solo=1)
 //	cfg set <rates>                                 bare TokenBucketSet
 //	  at <ns> consume <amount>   -> ok | delay <ns> | err
 //	  at <ns> update <rates>     -> ok
@@ -13,7 +15,8 @@
 //	  at <ns> get <key>          -> hit <v> | miss
 //	  len                        -> <n>
 //	cfg conn max=<m>                                ConnLimiter
-//	  start <id> <src> | finish <id>  -> admitted | 429 | released | dup | unknown
+//	  start <id> <src> | finish <id> [rewrite=<src2>]  -> admitted | 429 | released | dup | unknown
+//	      rewrite: the protected handler overwrites the header the source extractor reads before it returns
 //
 // `evict=` is a claim of the scenario author about which tracked source the TTL map forgets at this
 // request; the harness only uses it to restart that source's private limiter (solo mode), the model
@@ -26,6 +29,8 @@ import (
 	"net/http/httptest"
 	"strconv"
 	"strings"
+	"sync"
+	"sync/atomic"
 	"time"
 
 	"github.com/vulcand/oxy/v2/connlimit"
@@ -152,6 +157,26 @@ func (s *rateH) Op(f []string) string {
 		}
 		evict, _ := hx.KV(f, "evict")
 		return s.doReq(hx.Atoi64(f[1]), f[3], f[4], rates, evict, "")
+	case len(f) >= 7 && f[0] == "at" && f[2] == "preq":
+		if s.solo != nil {
+			return "bad-op"
+		}
+		rates, _ := hx.KV(f, "rates")
+		if rates != "" {
+			if _, err := parseRates(rates); err != nil {
+				return "bad-op"
+			}
+		}
+		if _, err := strconv.ParseUint(f[4], 10, 63); err != nil {
+			return "bad-op"
+		}
+		n, err1 := strconv.Atoi(f[5])
+		g, err2 := strconv.Atoi(f[6])
+		if err1 != nil || err2 != nil || n < 0 || g < 1 {
+			return "bad-op"
+		}
+		hx.AdvanceTo(hx.Atoi64(f[1]))
+		return s.flood(f[3], f[4], rates, n, g)
 	case f[0] == "retry":
 		if s.last == nil {
 			return "noretry"
@@ -165,6 +190,70 @@ func (s *rateH) Op(f []string) string {
 		return s.doReq(t, l.src, l.amount, l.rates, "", fmt.Sprintf(" t=%d", t))
 	}
 	return "bad-op"
+}
+
+// miniWriter is the cheapest possible http.ResponseWriter (keeps the flood loop tight).
+type miniWriter struct {
+	h    http.Header
+	code int
+}
+
+func (w *miniWriter) Header() http.Header { return w.h }
+func (w *miniWriter) WriteHeader(c int) {
+	if w.code == 0 {
+		w.code = c
+	}
+}
+func (w *miniWriter) Write(b []byte) (int, error) {
+	if w.code == 0 {
+		w.code = http.StatusOK
+	}
+	return len(b), nil
+}
+
+// flood issues n requests of one source from g goroutines at the current frozen instant.
+func (s *rateH) flood(src, amount, rates string, n, g int) string {
+	var c200, c429, c500, other int64
+	var wg sync.WaitGroup
+	start := make(chan struct{})
+	for i := 0; i < g; i++ {
+		share := n / g
+		if i < n%g {
+			share++
+		}
+		wg.Add(1)
+		go func(share int) {
+			defer wg.Done()
+			req := httptest.NewRequest(http.MethodGet, "http://h/", nil)
+			req.Header.Set("X-Src", src)
+			req.Header.Set("X-Amount", amount)
+			if rates != "" {
+				req.Header.Set("X-Rates", rates)
+			}
+			<-start
+			for k := 0; k < share; k++ {
+				w := &miniWriter{h: http.Header{}}
+				s.tl.ServeHTTP(w, req)
+				switch w.code {
+				case http.StatusOK:
+					atomic.AddInt64(&c200, 1)
+				case http.StatusTooManyRequests:
+					atomic.AddInt64(&c429, 1)
+				case http.StatusInternalServerError:
+					atomic.AddInt64(&c500, 1)
+				default:
+					atomic.AddInt64(&other, 1)
+				}
+			}
+		}(share)
+	}
+	close(start)
+	wg.Wait()
+	out := fmt.Sprintf("200=%d 429=%d 500=%d", c200, c429, c500)
+	if other != 0 {
+		out += fmt.Sprintf(" other=%d", other)
+	}
+	return out
 }
 
 func (s *rateH) Close() {}
@@ -254,6 +343,7 @@ func (s *ttlH) Close() {}
 type connReq struct {
 	release chan struct{}
 	done    chan struct{}
+	rewrite string // set before release is closed
 }
 
 type connH struct {
@@ -287,12 +377,13 @@ func (s *connH) Op(f []string) string {
 			delete(s.inflight, id)
 			return strconv.Itoa(w.Code)
 		}
-	case len(f) == 2 && f[0] == "finish":
+	case len(f) >= 2 && f[0] == "finish":
 		r, ok := s.inflight[f[1]]
 		if !ok {
 			return "unknown"
 		}
 		delete(s.inflight, f[1])
+		r.rewrite, _ = hx.KV(f, "rewrite")
 		close(r.release)
 		<-r.done
 		return "released"
@@ -315,6 +406,10 @@ func newConn(max int64) (*connH, error) {
 		r := s.inflight[id]
 		s.entered <- id
 		<-r.release
+		if r.rewrite != "" {
+			// a downstream handler rewriting what the source extractor reads
+			req.Header.Set("X-Src", r.rewrite)
+		}
 		w.WriteHeader(http.StatusOK)
 	})
 	cl, err := connlimit.New(next, extractor, max)
